@@ -8,6 +8,7 @@ mod c16;
 mod c17;
 mod c19;
 mod c20;
+mod c20mt;
 mod cli;
 mod srv;
 mod rng;
@@ -170,6 +171,13 @@ fn main() {
                     let mut rng = rng::Rng::new(0);
                     c19::run_script(&mut out, i as u64, &mut rng, Some(&ops), 0);
                 }
+            }
+        }
+        "c20mt" => {
+            if replay.is_empty() {
+                c20mt::generate(&mut out, seed, scripts, len);
+            } else {
+                c20mt::replay(&mut out, &read_scripts(&replay));
             }
         }
         "c20rr" | "c20hash" | "c20retry" => {
